@@ -135,7 +135,7 @@ def read_byte(ex, seq_t, idx_t):
         return lit[ci]
     if ex.quant:
         t = seq_t[idx_t]
-        ex.pc.append(z3.And(t >= 0, t <= 255))
+        ex.add_def(z3.And(t >= 0, t <= 255))
         return Sym(t, 'int')
     key = (seq_t.get_id(), idx_t.get_id())
     cache = ex.byte_cache
@@ -143,8 +143,8 @@ def read_byte(ex, seq_t, idx_t):
     if hit is not None:
         return hit
     b = z3.Int(ex.fresh_name('byte'))
-    ex.pc.append(b == seq_t[idx_t])
-    ex.pc.append(z3.And(b >= 0, b <= 255))
+    ex.add_def(b == seq_t[idx_t])
+    ex.add_def(z3.And(b >= 0, b <= 255))
     r = Sym(b, 'int')
     cache[key] = r
     ex.keep.append((seq_t, idx_t))
@@ -159,7 +159,7 @@ def name_int(ex, v, hint='t'):
     if z3.is_const(v.t):
         return v
     c = z3.Int(ex.fresh_name(hint))
-    ex.pc.append(c == v.t)
+    ex.add_def(c == v.t)
     return Sym(c, 'int')
 
 
@@ -242,7 +242,7 @@ def slice_hints(ex, s, lo, ln):
     if conc_int(rest) != 0:
         facts.append(z3.Concat(z3.Extract(s, lo, ln), z3.Extract(s, z3.simplify(lo + ln), rest)) == z3.Extract(s, lo, z3.simplify(n - lo)))
     for f in facts:
-        ex.pc.append(z3.Implies(guard, f))
+        ex.add_def(z3.Implies(guard, f))
 
 
 def conc_bytes_len(s):
@@ -889,8 +889,8 @@ def bytes_repeat(ex, pat, n):
     r = ex.fresh_sym('bytes', 'rep')
     nt = zint(n)
     i = z3.Int(ex.fresh_name('ri'))
-    ex.pc.append(z3.Length(r.t) == zmax(nt, z3.IntVal(0)))
-    ex.pc.append(z3.ForAll([i], z3.Implies(z3.And(i >= 0, i < z3.Length(r.t)), r.t[i] == pat[0])))
+    ex.add_def(z3.Length(r.t) == zmax(nt, z3.IntVal(0)))
+    ex.add_def(z3.ForAll([i], z3.Implies(z3.And(i >= 0, i < z3.Length(r.t)), r.t[i] == pat[0])))
     return r
 
 
